@@ -594,3 +594,11 @@ CAMLprim value vp_fileset_destroy(value f) { struct mtbl_fileset *p = PTR(f); mt
 CAMLprim value vp_fileset_source(value f) { return mk_ptr(mtbl_fileset_source(PTR(f))); }
 CAMLprim value vp_fileset_reload(value f) { mtbl_fileset_reload(PTR(f)); return Val_unit; }
 CAMLprim value vp_fileset_reload_now(value f) { mtbl_fileset_reload_now(PTR(f)); return Val_unit; }
+
+/* ---- process-level resource observation (C18) -------------------------------------- */
+#include <malloc.h>
+CAMLprim value vp_heap_in_use(value unit)
+{
+	struct mallinfo2 mi = mallinfo2();
+	return caml_copy_int64((int64_t) (mi.uordblks + mi.hblkhd));
+}
